@@ -129,6 +129,17 @@ class Runner:
             if beh == 'base':
                 raise InjectedBase('injected non-Exception in disconnect '
                                    'handler')
+        if kind == 'disconnect' and self.cfg.get('disconnect_emits'):
+            # a handler that tells a room, in two emits, that the client left
+            room = self.cfg['disconnect_emits']
+            sio = self.sio
+            self.leave_notes = getattr(self, 'leave_notes', 0) + 1
+            k = self.leave_notes
+            return D.Do(None, [
+                lambda: sio.emit('tokleft%d' % k, {'sid': 'x'}, to=room,
+                                 namespace=ns),
+                lambda: sio.emit('tokleftrooms%d' % k, {'sid': 'x'},
+                                 to=room, namespace=ns)])
         if kind == 'connect':
             script = self.connect_script.get(ns)
             beh = script.pop(0) if script else 'accept'
@@ -410,6 +421,13 @@ class Runner:
                 # ['session_nested', SID, ns, updA1, updB, updA2, raises]
                 res['ret'] = self._session_nested(
                     self.sid_of(op[1]), op[2], op[3], op[4], op[5], op[6])
+            elif kind == 'get_session_mutate':
+                # ['get_session_mutate', SID, ns, key, value]: the
+                # application modifies the dict get_session() gave it
+                sess = d.api('get_session', self.sid_of(op[1]),
+                             namespace=op[2])
+                sess[op[3]] = op[4]
+                res['ret'] = dict(sess)
             elif kind == 'is_connected':
                 res['ret'] = self.sio.manager.is_connected(
                     self.sid_of(op[1]), op[2])
